@@ -3,7 +3,7 @@
    Part A  return-code maps of the try-/timed- wrappers          thread.c:370-445, 668-682, 841-876
            uv_cond_init error exits                              thread.c:738-765
            uv_barrier_wait (pthread flavour)                      thread-common.c:151-160
-   Part B  stack size of uv_thread_create_ex                      thread.c:72-123, 155-168
+   Part B  stack size of uv_thread_create_ex                      thread.c:72-123, 155-175
    Part C  absolute deadline of uv_cond_timedwait                 thread.c:858-861, linux.c uv__hrtime
    Part E  interleaving models of the two algorithms libuv implements itself:
            the mutex/condvar barrier                              thread-common.c:38-148
@@ -117,14 +117,24 @@ Definition thread_stack_size (page psm : Z) (rl : rlim) : Z :=
 Definition round_up_page (page s : Z) : Z :=
   Z.land (wrap64 (wrap64 (s + page) - 1)) (wrap64 (Z.lnot (page - 1))).
 
-(* uv_thread_create_ex, lines 155-168: the size handed to
-   pthread_attr_setstacksize (0 = no attribute is set up). *)
-Definition stack_size_applied (page psm : Z) (rl : rlim) (has_flag : bool) (req : Z) : Z :=
+(* uv_thread_create_ex, lines 155-175 (with the guard of commit 4452eb2): the size handed
+   to pthread_attr_setstacksize.  None = the function returns UV_EINVAL before anything is
+   set up: no attribute, no pthread_create, no thread
+     if (stack_size > SIZE_MAX - (pagesize - 1)) return UV_EINVAL; *)
+Definition stack_size_applied (page psm : Z) (rl : rlim) (has_flag : bool) (req : Z)
+  : option Z :=
   let s := if has_flag then req else 0 in
-  if s =? 0 then thread_stack_size page psm rl
+  if s =? 0 then Some (thread_stack_size page psm rl)
+  else if s >? max64 - (page - 1) then None
   else
     let r := round_up_page page s in
-    if r <? min_stack_size psm then min_stack_size psm else r.
+    Some (if r <? min_stack_size psm then min_stack_size psm else r).
+
+(* the same code without the guard (the code before commit 4452eb2), kept so that the old
+   failing input stays on record *)
+Definition stack_size_applied_unguarded (page psm : Z) (req : Z) : Z :=
+  let r := round_up_page page req in
+  if r <? min_stack_size psm then min_stack_size psm else r.
 
 (* ------------------------------------------------------------------ *)
 (* Part C: deadline of uv_cond_timedwait                               *)
